@@ -111,6 +111,15 @@ IGNORE lost+found
 IGNORE packages
 ''')
 
+    # the split Manifests of an earlier run are ours: they are written
+    # anew below and must not be listed as regular files meanwhile
+    for d in ('metadata/glsa', 'metadata/news', ''):
+        for suffix in ('.gz', ''):
+            try:
+                os.unlink(os.path.join(d, 'Manifest.files' + suffix))
+            except FileNotFoundError:
+                pass
+
     p = multiprocessing.Pool()
 
     # generate 1st batch of sub-Manifests
